@@ -70,6 +70,11 @@ def alphabet(seed_):
     add('u17_auto', 'make', u17, micro=False, error='L', boost_error=False)
     add('bytes17', 'make', b'a' * 15 + b'\xc3\xbc', micro=False, error='L', boost_error=False)
     add('bytes17_utf8_eci', 'make', b'a' * 15 + b'\xc3\xbc', micro=False, error='L', boost_error=False, eci=True, encoding='utf-8')
+    # automatic level with an ECI header, one byte below each level boundary of versions 1 and 2 (the re-encoding clause: the chosen
+    # version / level / mask requested explicitly must be accepted and reproduce the symbol)
+    for nb in (7, 11, 14, 20, 26):
+        add(f'eci_utf8_{nb}', 'make', 'a' * (nb - 2) + '\xfc', micro=False, eci=True, encoding='utf-8')
+        add(f'eci_alias_{nb}', 'make', 'a' * (nb - 1) + '\xfc', micro=False, eci=True, encoding='latin1')
     for lvl in ('L', 'M', 'Q', 'H'):
         add('hello_' + lvl, 'make', 'Hello World', error=lvl, micro=False)
         add('hello_noboost_' + lvl, 'make', 'Hello World', error=lvl, micro=False, boost_error=False)
